@@ -74,17 +74,18 @@ prop('C04',
 
 prop('C05',
      title='Local time follows the zone data: offsets, gaps and folds',
-     verus=['tz'],
+     verus=['tz', 'tzrule'],
      bounded=['vk_tz_find_type_bounded', 'vk_tz_from_local_classify_bounded', 'vk_tz_validate_bounded'],
      twin=['tz'],
-     uncovered=['POSIX TZ rule lookups AlternateTime::find_local_time_type / find_local_time_type_from_local and their calendar helpers (rule.rs) -- not under contract yet',
+     uncovered=['POSIX TZ rule lookups: only safety, result shape and earliest-first ordering are proved; that the DST interval tests pick the prescribed type for every instant is covered by the tz twin only',
                 'Local / Cache::offset glue (reads environment and file system)', 'zones with leap-second records', 'zoneinfo database enumeration (configurations)',
                 'instant -> type lookup and exact gap/fold classification beyond the stated table bound (only bounded stand-ins)'],
      text='Verus proves, for transition tables of ANY length (hypothesis: strictly increasing transition times as established by validate(); separation hypothesis: a repeated '
           'hour ends before the next transition), that every candidate returned by the real find_local_time_type_from_local is sound (wall -> instant -> wall is the identity), '
           'that Ambiguous lists the earlier instant first with two distinct offsets, and that no transition time of the file can overflow the arithmetic. '
           'Bounded Kani stand-ins (<= 2 transitions): offset for an instant = type of the last transition at or before it; exact None/Single/Ambiguous classification; validate() <=> well-formed. '
-          'The POSIX-rule part is named unverified.')
+          'POSIX-rule code (Verus unit tzrule): is_leap_year, days_since_unix_epoch = day number - 719163 for every i32 year, RuleDay::transition_date for Jn / n / Mm.w.d (incl. last week) against the calendar, '
+          'unix_time, constructors, AlternateTime::new; from_timespec and both rule lookups never overflow, and the wall-clock lookup returns Ambiguous earliest first.')
 
 prop('C06',
      title='Durations are exact signed nanosecond counts within a closed range',
@@ -151,7 +152,7 @@ prop('C14',
 
 prop('C15',
      title='Fallible operations fail by value, not by panic or hang',
-     verus=['timedelta', 'date', 'time', 'datetime', 'iters', 'round', 'week', 'tz'],
+     verus=['timedelta', 'date', 'time', 'datetime', 'iters', 'round', 'week', 'tz', 'tzrule'],
      kani=['vk_date_from_ymd_opt', 'vk_date_from_yo_opt', 'vk_date_from_ordinal_and_flags', 'vk_date_isoywd_sound', 'vk_date_with_month', 'vk_date_with_day',
            'vk_date_with_ordinal', 'vk_date_with_year', 'vk_date_add_months', 'vk_date_sub_months', 'vk_date_weekday_of_month', 'vk_date_succ_pred',
            'vk_month_num_days', 'vk_month_from_u64', 'vk_month_from_i64', 'vk_weekday_from_primitive',
@@ -172,12 +173,12 @@ prop('C15',
 
 prop('C16',
      title='The TZif and TZ-rule readers accept well-formed data and survive everything else',
-     verus=['tz'],
+     verus=['tz', 'tzrule'],
      bounded=['vk_tz_validate_bounded', 'vk_tz_find_type_bounded', 'vk_tz_from_local_classify_bounded'],
      twin=['tz'],
      uncovered=['the TZif byte parser and the TZ-string grammar (iterator adapters, Vec, str::from_utf8): CBMC did not finish on 52-byte / 12-byte symbolic inputs in 20 min, so only the native sweep covers them',
                 'acceptance of every file a conforming writer emits (a statement over generated files, not a contract); only the 10 synthetic files + 15 rules of the twin',
-                'POSIX rule lookups (rule.rs) are not under contract', 'leap-second records'],
+                'that the POSIX rule lookups select the prescribed type (only safety / shape / ordering proved)', 'leap-second records'],
      text='Proved (Verus, unbounded): on a zone that passed validate(), the wall-clock lookup never overflows or indexes out of bounds for any file-supplied 64-bit transition time, '
           'and every candidate it returns is sound. Bounded Kani stand-ins: validate() accepts exactly well-formed tables; instant lookup. Bounded native stand-in (tz twin, through the public '
           'TZ=:/file and TZ=rule route on fresh threads): files written by an independent TZif writer and POSIX rules yield exactly the modelled offsets, gaps and folds; ~700 structured '
